@@ -2091,7 +2091,9 @@ def check_validation(r, rule):
             r.rep.ob(rule, fq, False, "arguments are validated before use", wh(r, fq, fs.func.node), expected="_check_common_input(...) first", found="no call", key="validate call")
             continue
         e = calls[0]
-        first = [x for x in fs.events if x.kind in ("call", "load_sub", "setattr", "setitem", "mutate")][0]
+        # (the first thing done *with the arguments*: a logging / tracing call that touches none of them does not count)
+        uses_args = lambda x: any(y[0] == "param" for v in x.data.values() if isinstance(v, tuple) for y in walk(v))
+        first = ([x for x in fs.events if x.kind in ("call", "load_sub", "setattr", "setitem", "mutate") and uses_args(x)] or [e])[0]
         r.rep.ob(rule, fq, first is e and not e.ctx.guards and not e.ctx.loops, "validation is the first thing the engine does", wh(r, fq, e.node), expected="_check_common_input before any other use",
                  found="first statement" if first is e else f"preceded by {first.kind} at line {first.line}", key="validate first")
         check_role_forwarding(r, rule, fq, e["term"], e.node, key="validate ")
@@ -2357,7 +2359,8 @@ def check_limit(r, rule):
             br = st.extra["branch"]
             where = wh(r, q, st.node)
             trunc = "truncate" in info["order"]
-            lim_none = any(nn.R._role_of(q, strip(g_)[2]) == "LIMIT" and strip(g_)[1] in ("is", "==") and strip(g_)[3] == NONE and pol for g_, pol in br if head(strip(g_)) == "cmp")
+            lim_lits = [(strip(a_), p_) for g_, pol in br for a_, p_ in lits(g_, pol)]
+            lim_none = any(head(a_) == "cmp" and nn.R._role_of(q, a_[2]) == "LIMIT" and a_[3] == NONE and ((a_[1] in ("is", "==")) == p_) and a_[1] in ("is", "==", "isnot", "!=") for a_, p_ in lim_lits)
             K = f"{MODE_NAME[mode]}/{'untruncated' if lim_none else 'truncated'}"
             n += 1
             if info.get("offset") is not None:
